@@ -142,7 +142,18 @@ impl Tier {
             Tier::Thorough => t,
         }
     }
+    /// Number of generated cases of a random stage. The quick figures in the property modules are
+    /// the volumes at which every recorded breaking change was caught with VERIF_SEED=0; the quick
+    /// tier runs three times that, as a margin for other seeds.
+    pub fn cases(self, q: u64, t: u64) -> u64 {
+        match self {
+            Tier::Quick => q * QUICK_SCALE,
+            Tier::Thorough => t,
+        }
+    }
 }
+
+pub const QUICK_SCALE: u64 = 3;
 
 #[derive(Debug, Clone)]
 pub struct Finding {
